@@ -17,7 +17,7 @@ Export == (nrepl = MaxRepl /\ nwrites = MaxWrites) => PrintT(<<"BEH", ToJson(his
 \* consumer's apply logic are exported, so that every arm is replayed on the real servers
 ArmNames == <<"tomb-tomb", "tomb-absent", "tomb-over-live", "live-onto-tomb", "new-entry", "addconflict-keep",
               "addconflict-replace", "merge-into-recycled", "merge-recycle", "merge-revive", "merge",
-              "unique-clash", "conflict-copy-created", "nothing-to-supply", "refused-refresh", "refused-unwilling",
+              "unique-clash", "addconflict-survivor-in-unique-clash", "conflict-copy-created", "nothing-to-supply", "refused-refresh", "refused-unwilling",
               "refused-critical", "refused-nooverlap">>
 ArmIdx(a) == 10 + CHOOSE i \in 1..Len(ArmNames) : ArmNames[i] = a
 ASSUME \A i \in 1..Len(ArmNames) : TLCSet(10 + i, 0)
